@@ -77,7 +77,7 @@ func coinsWithin(a, b sdk.Coins, tol int64) (string, bool) {
 
 func runC08(c *vk.Ctx) {
 	c.R.Rule = "cases = the common concentrated-liquidity histories (swap-heavy, all uptimes in half of them, both sides of the accumulator migration) in which, at a seed-chosen point, four probe positions are planted in one block: twins A and B (identical range and tokens, different owners), a k× position (k ∈ 2..9) and a position in a range the price has not visited; the random operations leave the probes alone. After every operation: twins' claimable spread rewards and incentives must be identical; the k× position's within the truncation allowance of the liquidity ratio; the never-in-range position's zero; Σ claimed + Σ claimable vs fees paid in + incentives funded (never above, short only by the computed dust bound); incentives of positions younger than every incentive record's uptime zero. Around every claim / add / partial withdraw / transfer of any other position: claimed + still-claimable is preserved within one unit per denom per accumulator. distinct_nontrivial counts distinct (operation, probes planted?, twins earning spread?, twins earning incentives?, far still untouched?, preservation outcome) tuples."
-	nHist := c.N(200, 6400)
+	nHist := c.N(800, 6400)
 	opsPer := c.N(50, 150)
 	var s *c08State
 	hooks := clHooks{}
